@@ -54,14 +54,14 @@ def reads (keys ops : List String) (s : H) : String :=
   let ctr := ofChain c s.permCount
   let next := c.length
   let maxSuf : Int := ((c.filterMap (fun b => b.suf.map (fun x => (x.1 : Int)))).foldl (fun (a : Int) x => max a x) (-1))
-  let st := (keys ++ ["suffrage", "network_policy"]).map (fun k => match specState c k with
+  let st := (keys ++ ["suffrage", "network_policy"]).map (fun k => match ctrState ctr k with
     | some (v, h) => s!"{v}@{h}" | none => "-")
-  let ms := (List.range (next + 2)).map (fun h => opt (specBlockMap c h))
+  let ms := (List.range (next + 2)).map (fun h => opt (ctrBlockMap ctr h))
   let ps := (List.range (maxSuf + 3).toNat).map (fun sh => opt (ctrProof fixes ctr sh))
   let pb := (List.range (next + 2)).map (fun h => opt (ctrProofByBlock fixes ctr h))
   let lph := match ctrLastProofHeight fixes ctr with | some h => toString h | none => "-"
-  let os := ops.map (fun o => boolStr (specInState c o) ++ boolStr (specKnown c o))
-  s!"S:{",".intercalate st} M:{",".intercalate ms} LM:{opt (specLastBlockMap c)} P:{",".intercalate ps} PB:{",".intercalate pb} LP:{opt (specLastProof c)} LPH:{lph} O:{",".intercalate os} POL:{opt (specPolicy c)}"
+  let os := ops.map (fun o => boolStr (ctrInState ctr o) ++ boolStr (ctrKnown ctr o))
+  s!"S:{",".intercalate st} M:{",".intercalate ms} LM:{opt (ctrLastBlockMap ctr)} P:{",".intercalate ps} PB:{",".intercalate pb} LP:{opt (ctrLastProof ctr)} LPH:{lph} O:{",".intercalate os} POL:{opt (ctrPolicy ctr)}"
 
 end Mitum.Driver.CenterDrv
 namespace Mitum.Driver
